@@ -23,7 +23,8 @@ CONSTANTS BUF,        \* buffer size in cells
           HEADLOOP,   \* read again while the head is incomplete (else: parse the first read whatever it holds)
           CARRY       \* bytes read beyond the end of a request are kept for the next one (else: discarded)
 
-\* reqs: sequence of [h |-> head cells, b |-> body cells, close |-> BOOLEAN]
+\* reqs: sequence of [h |-> head cells, b |-> body cells, close |-> BOOLEAN, bad |-> BOOLEAN]
+\*   bad: the head is refused by the parser after some of its header lines were accepted (error response, the loop goes on)
 Cell(k, p, i) == <<k, p, i>>
 CellsOf(reqs, k) == [i \in 1..reqs[k].h |-> Cell(k, "H", i)] \o [i \in 1..reqs[k].b |-> Cell(k, "B", i)]
 RECURSIVE StreamFrom(_, _)
@@ -43,6 +44,7 @@ Segments(reqs, cuts) == SegsFrom(Stream(reqs), cuts, 1)
 \* responses the byte stream denotes: one per request, with its own body, until a request asks to close
 RECURSIVE IdealFrom(_, _)
 IdealFrom(reqs, k) == IF k > Len(reqs) THEN <<>>
+                      ELSE IF reqs[k].bad THEN <<[k |-> k, body |-> <<"error">>]>> \o IdealFrom(reqs, k + 1)
                       ELSE <<[k |-> k, body |-> BodyOf(reqs, k)]>> \o (IF reqs[k].close THEN <<>> ELSE IdealFrom(reqs, k + 1))
 Ideal(reqs) == IdealFrom(reqs, 1)
 \* position of the last cell of request k in the stream
@@ -89,6 +91,10 @@ Parse == /\ pc = "parse"
             IF k = 0 THEN \* not a request head: error response (or close); the loop goes on with a cleared buffer
                  /\ resp' = Append(resp, [k |-> 0, body |-> <<"error">>]) /\ buf' = <<>> /\ pc' = "read"
                  /\ dropped' = TRUE /\ UNCHANGED cur
+            ELSE IF reqs[k].bad THEN \* refused while reading its header lines: error response, everything read is discarded
+                 /\ resp' = Append(resp, [k |-> k, body |-> <<"error">>]) /\ pc' = "read"
+                 /\ buf' = (IF CARRY THEN SubSeq(buf, reqs[k].h + 1, Len(buf)) ELSE <<>>)
+                 /\ dropped' = (dropped \/ (~CARRY /\ Len(buf) > reqs[k].h)) /\ UNCHANGED cur
             ELSE LET h == reqs[k].h  b == reqs[k].b  avail == Len(buf) - h IN
                  IF b =< avail
                    THEN \* payload taken from the buffer; what follows it belongs to the next request
